@@ -28,16 +28,16 @@ func NewTimestamp(era uint32, lamport uint64, cuid string, delimiter uint32) *Ti
 
 // Compare is used to compared with another Timestamp.
 func (its *Timestamp) Compare(o *Timestamp) int {
-	retEra := int32(its.Era - o.Era)
-	if retEra > 0 {
+	// (compared directly: the sign of a difference wraps once the values are 2^31 (era) or 2^63 (clock) apart, and the
+	// comparison is then neither antisymmetric nor transitive)
+	if its.Era > o.Era {
 		return 1
-	} else if retEra < 0 {
+	} else if its.Era < o.Era {
 		return -1
 	}
-	var diff = int64(its.Lamport - o.Lamport)
-	if diff > 0 {
+	if its.Lamport > o.Lamport {
 		return 1
-	} else if diff < 0 {
+	} else if its.Lamport < o.Lamport {
 		return -1
 	}
 	return strings.Compare(its.CUID, o.CUID)
